@@ -129,8 +129,8 @@ pub fn run(a: &Args) {
             let exe = exe.clone();
             sc.spawn(move || {
                 ch.iter().map(|(s, d, api)| {
-                    // (a scenario that neither succeeds nor fails within two minutes is ended: exit status 124)
-                    let o = std::process::Command::new("timeout").arg("120").arg(&exe).args(["c11-child", "--shape", s, "--depth", &d.to_string(), "--api", api]).output();
+                    // (a scenario that neither succeeds nor fails within 30 seconds is ended: exit status 124)
+                    let o = std::process::Command::new("timeout").arg("30").arg(&exe).args(["c11-child", "--shape", s, "--depth", &d.to_string(), "--api", api]).output();
                     match o {
                         Ok(o) => {
                             use std::os::unix::process::ExitStatusExt;
